@@ -27,6 +27,8 @@ import CV.Fsm
 import CV.FsmFacts
 import CV.Engine.StoreCore
 import CV.FsmFamilies
+import CV.FsmKeyed
+import CV.FsmKeyedFamilies
 namespace CV.Engine.C01
 open CV CV.Fsm
 
@@ -70,16 +72,123 @@ def dispatchStep (toks : List String) : Option String :=
       some s!"n={t.results.length} crashed={encBool t.crashed} out={encList (t.results.map showOutcome)}"
     | _, _ => some "bad-op"
   | ["fam"] =>
-    some s!"concrete={encList Families.concreteTypes} opaque={encList Families.opaqueTypes}"
+    some s!"concrete={encList (Families.concreteTypes ++ KeyedFamilies.keyedTypes)} opaque={encList KeyedFamilies.opaqueTypes}"
   | ["cov", seen] =>
     let miss := Consul.missingTypes (decList seen)
     some (if miss.isEmpty then "ok" else s!"missing={encList miss}")
   | _ => none
 
-def step (s : Store.State) (toks : List String) : Store.State × String :=
+/-! ### the keyed-table families (`CV.Keyed.apply`): `k…` operations
+
+  kreset                                   → `ok`
+  kpset <idx> <policy>,…                   policy = id|name|body|rulesBuiltin|hasDCs
+  kpdel <idx> <id>,…
+  krset <idx> <allowMissing> <role>,…      role = id|name|body|links|svc|nodes|tps
+                                           (links, nodes, tps: `;`-separated `a+b` pairs; svc: `;`-separated; `-` = empty)
+  krdel <idx> <id>,…
+  kbset <idx> <rule>,…                     rule = id|method|body
+  kbdel <idx> <id>,…
+  kmset <idx> <method>,…                   method = name|type|body
+  kmdel <idx> <name>,…
+  kfup <idx> <dc> <body> <pmi> · kfdel <idx> <dc> · kfbogus <idx> · kleaf <idx> · kleafbogus <idx>
+      → `nil` | `true` | `n:<k>` | `err:<Err>`
+  kdump → `pol=… role=… rule=… meth=… fed=… idx=…` (rows in key order)
+-/
+
+def decPairs (tok : String) : Option (List (String × String)) :=
+  if tok == "-" then some []
+  else (tok.splitOn ";").mapM fun p =>
+    match p.splitOn "+" with
+    | [a, b] => do pure ((← decS a), (← decS b))
+    | _ => none
+
+def decStrs (tok : String) : Option (List String) :=
+  if tok == "-" then some [] else (tok.splitOn ";").mapM decS
+
+def decItems {α : Type} (f : List String → Option α) (tok : String) : Option (List α) :=
+  (decList tok).mapM fun it => f (it.splitOn "|")
+
+def decPolicy : List String → Option Keyed.PolicyReq
+  | [i, n, b, rb, dc] => do pure ⟨← decS i, ← decS n, ← decS b, ← decBool rb, ← decBool dc⟩
+  | _ => none
+def decRole : List String → Option Keyed.RoleReq
+  | [i, n, b, l, sv, nd, tp] => do
+      pure ⟨← decS i, ← decS n, ← decS b, ← decPairs l, ← decStrs sv, ← decPairs nd, ← decPairs tp⟩
+  | _ => none
+def decRule : List String → Option Keyed.RuleReq
+  | [i, m, b] => do pure ⟨← decS i, ← decS m, ← decS b⟩
+  | _ => none
+def decMethod : List String → Option Keyed.MethodReq
+  | [n, t, b] => do pure ⟨← decS n, ← decS t, ← decS b⟩
+  | _ => none
+
+def showKErr (e : Keyed.Err) : String := (reprStr e).replace "CV.Keyed.Err." ""
+
+def showKRes : Keyed.Res → String
+  | .nil => "nil"
+  | .true_ => "true"
+  | .num n => s!"n:{n}"
+  | .err e => s!"err:{showKErr e}"
+
+def insertByKey {α : Type} (key : α → String) (x : α) : List α → List α
+  | [] => [x]
+  | y :: ys => if key x ≤ key y then x :: y :: ys else y :: insertByKey key x ys
+
+def sortByKey {α : Type} (key : α → String) (l : List α) : List α := l.foldr (insertByKey key) []
+
+def encPairs (l : List (String × String)) : String :=
+  if l.isEmpty then "-" else ";".intercalate (l.map fun (a, b) => encS a ++ "+" ++ encS b)
+
+def kdump (s : Keyed.State) : String :=
+  let pol := (sortByKey Keyed.Policy.key s.policies).map fun r => s!"{encS r.id}|{encS r.name}|{encS r.body}|{r.create}|{r.modify}"
+  let role := (sortByKey Keyed.Role.key s.roles).map fun r => s!"{encS r.id}|{encS r.name}|{encS r.body}|{encPairs r.links}|{r.create}|{r.modify}"
+  let rule := (sortByKey Keyed.Rule.key s.rules).map fun r => s!"{encS r.id}|{encS r.method}|{encS r.body}|{r.create}|{r.modify}"
+  let meth := (sortByKey Keyed.Method.key s.methods).map fun r => s!"{encS r.name}|{encS r.type}|{encS r.body}|{r.create}|{r.modify}"
+  let fed := (sortByKey Keyed.Fed.key s.feds).map fun r => s!"{encS r.dc}|{encS r.body}|{r.pmi}|{r.create}|{r.modify}"
+  let idx := (sortByKey (fun (x : String × Nat) => x.1) s.index).map fun (t, v) => s!"{t}:{v}"
+  s!"pol={encList pol} role={encList role} rule={encList rule} meth={encList meth} fed={encList fed} idx={encList idx}"
+
+def kcmd (toks : List String) : Option (Nat × Keyed.Cmd) :=
+  match toks with
+  | ["kpset", i, items] => do pure (← i.toNat?, .policySet (← decItems decPolicy items))
+  | ["kpdel", i, ids] => do pure (← i.toNat?, .policyDelete (← (decList ids).mapM decS))
+  | ["krset", i, am, items] => do pure (← i.toNat?, .roleSet (← decItems decRole items) (← decBool am))
+  | ["krdel", i, ids] => do pure (← i.toNat?, .roleDelete (← (decList ids).mapM decS))
+  | ["kbset", i, items] => do pure (← i.toNat?, .ruleSet (← decItems decRule items))
+  | ["kbdel", i, ids] => do pure (← i.toNat?, .ruleDelete (← (decList ids).mapM decS))
+  | ["kmset", i, items] => do pure (← i.toNat?, .methodSet (← decItems decMethod items))
+  | ["kmdel", i, ns] => do pure (← i.toNat?, .methodDelete (← (decList ns).mapM decS))
+  | ["kfup", i, dc, b, pmi] => do pure (← i.toNat?, .fedUpsert ⟨← decS dc, ← decS b, ← pmi.toNat?⟩)
+  | ["kfdel", i, dc] => do pure (← i.toNat?, .fedDelete (← decS dc))
+  | ["kfbogus", i] => do pure (← i.toNat?, .fedBogus)
+  | ["kleaf", i] => do pure (← i.toNat?, .leafIncrement)
+  | ["kleafbogus", i] => do pure (← i.toNat?, .leafBogus)
+  | _ => none
+
+def isKeyedOp (op : String) : Bool :=
+  op ∈ ["kpset", "kpdel", "krset", "krdel", "kbset", "kbdel", "kmset", "kmdel", "kfup", "kfdel", "kfbogus", "kleaf", "kleafbogus"]
+
+def keyedStep (k : Keyed.State) (toks : List String) : Option (Keyed.State × String) :=
+  match toks with
+  | ["kreset"] => some ({}, "ok")
+  | ["kdump"] => some (k, kdump k)
+  | op :: _ =>
+    if isKeyedOp op then
+      match kcmd toks with
+      | some (idx, c) => let r := Keyed.apply k idx c; some (r.1, showKRes r.2)
+      | none => some (k, "bad-op")
+    else none
+  | [] => none
+
+abbrev EState := Store.State × Keyed.State
+
+def step (s : EState) (toks : List String) : EState × String :=
   match dispatchStep toks with
   | some out => (s, out)
-  | none => StoreCore.step s toks
+  | none =>
+    match keyedStep s.2 toks with
+    | some (k, out) => ((s.1, k), out)
+    | none => let r := StoreCore.step s.1 toks; ((r.1, s.2), r.2)
 
-def engine : Engine := { State := Store.State, init := Store.State.empty, step := step }
+def engine : Engine := { State := EState, init := (Store.State.empty, {}), step := step }
 end CV.Engine.C01
